@@ -26,6 +26,7 @@ def main():
     ap = argparse.ArgumentParser()
     ap.add_argument("src"); ap.add_argument("name"); ap.add_argument("prop"); ap.add_argument("demodir")
     ap.add_argument("--checks"); ap.add_argument("--skip-confirm", action="store_true"); ap.add_argument("--tier", default="quick")
+    ap.add_argument("--slot", help="run the checks in a private copy of /verif against a private worktree of /repo with the patch applied (leaves /repo and /verif/evidence alone; lets several evaluations run side by side)")
     a = ap.parse_args()
     dst = os.path.join(V, "seeded", a.name)
     os.makedirs(dst, exist_ok=True)
@@ -95,6 +96,8 @@ def main():
             sh(["git", "-C", "/repo", "worktree", "remove", "--force", wt])
     checks = (a.checks or a.prop).split(",")
     res = {}
+    if a.slot:
+        return run_in_slot(a, meta, patch, checks, dst)
     rc, out = sh(["git", "-C", "/repo", "status", "--porcelain"])
     if out.strip():
         print("refusing: /repo is not clean"); return 2
@@ -134,6 +137,52 @@ def main():
     for c, r in res.items():
         print(c, "CAUGHT" if r["caught"] else "missed", "(no-failing-input-found)" if r["no_failing_input_found"] else "", r["wall_s"], "s")
         print("   ", r["first"][:300].replace("\n", " | "))
+
+
+def run_in_slot(a, meta, patch, checks, dst):
+    """Same as the /repo path, but on copies: /tmp/ve<slot> (copy of /verif, go.mod replace pointed at the worktree) and
+    /tmp/ve<slot>_repo (worktree of /repo's HEAD with the patch applied); VERIF_REPO makes the extractor read the worktree."""
+    vd, rd = "/tmp/ve%s" % a.slot, "/tmp/ve%s_repo" % a.slot
+    sh(["git", "-C", "/repo", "worktree", "remove", "--force", rd])
+    shutil.rmtree(rd, ignore_errors=True)
+    sh(["git", "-C", "/repo", "worktree", "prune"])
+    rc, out = sh(["git", "-C", "/repo", "worktree", "add", "-q", "--detach", rd, "HEAD"])
+    res = {}
+    try:
+        rc, out = sh(["git", "apply", patch], cwd=rd)
+        if rc != 0:
+            rc, out = sh(["git", "apply", "--3way", patch], cwd=rd)
+            sh(["git", "reset", "-q"], cwd=rd)
+            meta["applied_with_3way_on"] = sh(["git", "-C", "/repo", "log", "--format=%h", "-1"])[1].strip()
+        if rc != 0:
+            print("patch does not apply to the current /repo:", out[-300:]); return 2
+        os.makedirs(vd, exist_ok=True)
+        sh(["rsync", "-a", "--delete", "--exclude", ".git", "--exclude", "build/run", "--exclude", "build/replay", "--exclude", "build/*.lock", V + "/", vd + "/"])
+        gm = os.path.join(vd, "harness", "go.mod")
+        open(gm, "w").write(open(gm).read().replace("=> /repo", "=> " + rd))
+        env = dict(ENV, VERIF_REPO=rd)
+        for c in checks:
+            t = time.time()
+            try:
+                p = subprocess.run([os.path.join(vd, "check"), c, "--tier", a.tier], cwd=vd, env=env, timeout=3000, stdout=subprocess.PIPE, stderr=subprocess.STDOUT, text=True, errors="replace")
+                rc, out = p.returncode, p.stdout
+            except subprocess.TimeoutExpired as e:
+                rc, out = 124, "[timeout]"
+            out = out.replace(vd, V)
+            lines = [l for l in out.split("\n") if l.startswith("VIOLATION") or l.startswith("   ")]
+            res[c] = {"exit": rc, "caught": rc == 1 and "VIOLATION" in out, "no_failing_input_found": "no-failing-input-found" in out,
+                      "first": "\n".join(lines[:2])[:700], "wall_s": round(time.time() - t, 1)}
+    finally:
+        sh(["git", "-C", "/repo", "worktree", "remove", "--force", rd])
+        shutil.rmtree(os.path.join(vd, "build", "run"), ignore_errors=True)
+    meta["checks_run"] = res
+    meta["what_i_ran"] = "tools/seedtest.py %s (scratch worktree: apply, go build, existing suite, demo with/without; then the checks of a copy of /verif (%s) against a worktree of /repo with the patch applied (%s, VERIF_REPO))" % (" ".join(sys.argv[1:]), vd, rd)
+    json.dump(meta, open(os.path.join(dst, "meta.json"), "w"), indent=1)
+    print(json.dumps({k: meta.get(k) for k in ("name", "builds", "suite_passes_with_patch", "demo_fails_with_patch", "demo_passes_on_clean_tree")}))
+    for c, r in res.items():
+        print(c, "CAUGHT" if r["caught"] else "missed", "(no-failing-input-found)" if r["no_failing_input_found"] else "", r["wall_s"], "s")
+        print("   ", r["first"][:300].replace("\n", " | "))
+    return 0
 
 
 if __name__ == "__main__":
